@@ -143,6 +143,19 @@ Definition clean_preedit (c : cctx) : cctx * Z :=
 Definition clean_bopomofo (c : cctx) : cctx * Z := (with_ed c (ml_clear_syl (cx_ed c)), 0).
 Definition reset (c : cctx) : cctx := with_ed c (ml_clear (cx_ed c)).
 
+(* chewing_cand_list_first / last / next / prev: -1 unless a list is open; first / last never fail *)
+Definition cand_list (which : N) (c : cctx) : outcome (cctx * Z) :=
+  let e := cx_ed c in
+  if negb (is_selecting_b e) then Ok (c, -1)
+  else
+    let r := match which with
+             | 0%N => ml_jump_first e | 1%N => ml_jump_last e | 2%N => ml_jump_next e | _ => ml_jump_prev e
+             end in
+    match r with
+    | Ok x => Ok (with_ed c (fst x), if (N.leb which 1) then 0 else if snd x then 0 else -1)
+    | Err x => Err x | Panic s => Panic s | OutOfFuel => OutOfFuel
+    end.
+
 (* ---- the query functions of the C API: projections of the context (capi/src/io.rs) ---- *)
 (* chewing_commit_Check / buffer_Check / buffer_Len / bopomofo_Check / cursor_Current / cand_CheckDone /
    cand_TotalPage / cand_ChoicePerPage / cand_TotalChoice / cand_CurrentPage / aux_Check / aux_Length /
